@@ -2,6 +2,7 @@ package ext
 
 import (
 	"bytes"
+	"strconv"
 	"crypto/ecdsa"
 	"crypto/sha256"
 	"encoding/binary"
@@ -325,7 +326,12 @@ func CommandWellFormed(payload []byte, amount *big.Int, hubAddrOK func(string) b
 	default:
 		return c, false
 	}
+	// "integer": decimal, or any Go integer literal (0x.., 0b.., 0o.., underscores) — the hub parses the fee
+	// with the same literal syntax, so either reading denotes the same number
 	fee, ok := new(big.Int).SetString(c.Fee, 10)
+	if !ok {
+		fee, ok = new(big.Int).SetString(c.Fee, 0)
+	}
 	if !ok || fee.Sign() < 0 {
 		return c, false
 	}
@@ -346,7 +352,8 @@ func (m *Minter) Classify(tx *MTx, hubAddrOK func(string) bool) BridgeEventKind 
 	case tx.Type == MTypeMultisend && tx.From == m.MultisigAddr:
 		return MBatch
 	case tx.Type == MTypeEditMultisig && tx.From == m.MultisigAddr:
-		if _, err := parseUintStrict(string(tx.Payload)); err == nil {
+		// the payload carries the signer-set nonce as a decimal integer (what strconv.Itoa writes and Atoi reads)
+		if _, err := strconv.Atoi(string(tx.Payload)); err == nil {
 			return MValset
 		}
 	}
@@ -400,7 +407,8 @@ func (m *Minter) BridgeEvents(hubAddrOK func(string) bool) []MEvent {
 				batch++
 				ev.BatchNonce = batch
 			case MValset:
-				ev.ValsetNonce, _ = parseUintStrict(string(tx.Payload))
+				vn, _ := strconv.Atoi(string(tx.Payload))
+				ev.ValsetNonce = uint64(vn)
 			}
 			out = append(out, ev)
 			n++
@@ -424,4 +432,12 @@ func MinterSigValid(d [32]byte, sig []byte, addr [20]byte) bool {
 	}
 	a := ethcrypto.PubkeyToAddress(*pub)
 	return bytes.Equal(a[:], addr[:])
+}
+
+// InjectMultisig appends a transaction sent by the bridge multisig without checking signatures
+// (scripted histories for the connector harness).
+func (m *Minter) InjectMultisig(tx MTx) {
+	tx.Hash = m.nextHash()
+	m.Nonce = tx.Nonce
+	m.pending = append(m.pending, tx)
 }
